@@ -149,6 +149,9 @@ def get_attr(I, obj, name, node):
                 return Builtin('object.__eq__', recv=self_obj)
             raise AnalysisError('super().%s not found' % name)
         return BoundMethod(self_obj, m, cls)
+    if type(obj).__name__ == 'AMatch':
+        if name in MATCH_METHODS:
+            return Builtin('match.' + name, recv=obj)
     if isinstance(obj, Unk) and obj.src == ('shared', 'logger'):
         return Builtin('logging.log')
     if isinstance(obj, AObj):
@@ -429,7 +432,10 @@ def slice_value(I, obj, sl, node):
     if isinstance(obj, AList):
         return AList([], elem=obj.elem if obj.elem is not None else (obj.items[0] if obj.items else Unk('e')))
     if isinstance(obj, Unk):
-        return Unk('%s[:]' % obj.name, kinds=obj.kinds, taint=tj(obj, lo, hi), src=('slice', obj, lo, hi))
+        u = Unk('%s[:]' % obj.name, kinds=obj.kinds, taint=tj(obj, lo, hi), src=('slice', obj, lo, hi))
+        if hasattr(obj, 'k1_record'):
+            u.k1_record = obj.k1_record
+        return u
     return Unk('slice', kinds=kind_of(obj), taint=tj(obj, lo, hi), src=('slice', obj, lo, hi))
 
 
@@ -738,6 +744,7 @@ def compare(I, op, l, r, node):
     if opn in ('In', 'NotIn'):
         res = None
         cont = r
+        I.emit('membership', node, {'left': l, 'right': r, 'op': opn})
         if rc and isinstance(cr, (frozenset, tuple, str, bytes, dict)):
             if lc:
                 try:
@@ -844,4 +851,6 @@ def compare(I, op, l, r, node):
     return Unk('cond', kinds=['bool'], taint=tj(l, r), src=('cond', refine_ord))
 
 
-from sa.calls import call_builtin  # noqa: E402  (circular by design)
+def call_builtin(I, fn, args, kwargs, node):
+    from sa import calls
+    return calls.call_builtin(I, fn, args, kwargs, node)
